@@ -42,6 +42,7 @@ type isReq struct {
 	asset   string
 	entity  uint32 // action / asset target (own entity)
 	relayed bool   // a relay is owed to every other member if accepted
+	to      []int  // custom: addressed to these connections only (nil = the whole session)
 }
 
 func isf(props []string, clause, format string, a ...any) *check.Finding {
@@ -120,7 +121,21 @@ func IntegrityStorm(p *sut.Proc, sessions, members, perConn int, seed int64) (st
 		for k := 0; k < perConn; k++ {
 			tag := d.NewTag()
 			r := &isReq{conn: i, sess: cn.sess, tag: d.TagID(tag), ts: tag}
-			switch rng.Intn(5) {
+			switch rng.Intn(6) {
+			case 5:
+				// addressed to one or two named members of the own session (possibly
+				// naming one twice, or the sender itself)
+				r.kind, r.relayed = "custom", true
+				r.body = []byte(fmt.Sprintf("to-%d-%d-%x", i, k, rng.Uint64()))
+				var mates []int
+				for j, o := range conns {
+					if o.sess == cn.sess {
+						mates = append(mates, j)
+					}
+				}
+				for n := 0; n < 1+rng.Intn(3); n++ {
+					r.to = append(r.to, mates[rng.Intn(len(mates))])
+				}
 			case 0, 1:
 				r.kind, r.relayed = "custom", true
 				r.body = []byte(fmt.Sprintf("is-%d-%d-%x", i, k, rng.Uint64()))
@@ -143,7 +158,11 @@ func IntegrityStorm(p *sut.Proc, sessions, members, perConn int, seed int64) (st
 		ts := r.ts
 		switch r.kind {
 		case "custom":
-			return &hagallpb.CustomMessage{Type: d.TCustom, Timestamp: ts, Body: r.body}
+			m := &hagallpb.CustomMessage{Type: d.TCustom, Timestamp: ts, Body: r.body}
+			for _, j := range r.to {
+				m.ParticipantIds = append(m.ParticipantIds, conns[j].c.PID)
+			}
+			return m
 		case "entity_add":
 			return &hagallpb.EntityAddRequest{Type: d.TEntityAddReq, Timestamp: ts, RequestId: r.id, Persist: true, Pose: &hagallpb.Pose{Px: r.px, Rw: 1}}
 		case "action":
@@ -201,6 +220,7 @@ func IntegrityStorm(p *sut.Proc, sessions, members, perConn int, seed int64) (st
 		return (sec-1_600_000_000)*1_000_000_000 + ts.Get(ts.Descriptor().Fields().ByName("nanos")).Int()
 	}
 	accepted := map[int64]bool{}
+	entityIDs := map[int]map[uint32]int{}
 	// --- answers
 	for i, cn := range conns {
 		if fa := cn.c.ForeignAnswers(); len(fa) > 0 {
@@ -208,6 +228,9 @@ func IntegrityStorm(p *sut.Proc, sessions, members, perConn int, seed int64) (st
 		}
 		count := map[uint32]int{}
 		ok := map[uint32]bool{}
+		if entityIDs[cn.sess] == nil {
+			entityIDs[cn.sess] = map[uint32]int{}
+		}
 		for _, e := range cn.c.LogCopy()[startLen[i]:] {
 			if e.M == nil || e.Type == d.TPingResp || e.Type == d.TPingReq {
 				continue
@@ -220,6 +243,12 @@ func IntegrityStorm(p *sut.Proc, sessions, members, perConn int, seed int64) (st
 			count[id]++
 			ok[id] = e.Type != d.TError
 			st.Answers++
+			if ar, isAdd := e.M.(*hagallpb.EntityAddResponse); isAdd {
+				if prev, dup := entityIDs[cn.sess][ar.EntityId]; dup {
+					st.Findings = append(st.Findings, isf([]string{"C10", "C05"}, "id/entity-reissued", "entity id %d of session %d was issued to connection %d and to connection %d (concurrent entity adds): both now own it", ar.EntityId, cn.sess, prev, i))
+				}
+				entityIDs[cn.sess][ar.EntityId] = i
+			}
 		}
 		for _, r := range cn.reqs {
 			if r.id == 0 {
@@ -298,6 +327,14 @@ func IntegrityStorm(p *sut.Proc, sessions, members, perConn int, seed int64) (st
 				want := 0
 				if r.relayed && accepted[r.tag] {
 					want = 1
+				}
+				if r.to != nil {
+					want = 0
+					for _, j := range r.to {
+						if j == i {
+							want = 1
+						}
+					}
 				}
 				if seen[r.tag] != want {
 					st.Findings = append(st.Findings, isf([]string{"C02"}, "relay/not-exactly-once", "connection %d (a member throughout) received %d relays of connection %d's accepted %s (want %d)", i, seen[r.tag], r.conn, r.kind, want))
